@@ -3,7 +3,8 @@ from common import T_COMMON
 CFG = dict(
     theorems=["prim_wf", "uvSphere_wf", "uvSphereUnwelded_wf", "hemisphere_wf", "circle_wf", "cone_wf", "cylinder_wf",
               "quad_wf", "cube_wf", "cubeUnwelded_wf",
-              "unweld_wf", "toPointCloud_wf", "flip_wf", "setIndices_wf"],
+              "unweld_wf", "removeUnreferenced_wf", "toPointCloud_wf", "flip_wf", "setIndices_wf"],
+    harness_files=["c02c03_mesh.go"],
     streams=[dict(name="c02", n=dict(quick=400, thorough=12000))],
     trusted=T_COMMON[1:] + [
         "hand-written pure models PolyVerif/Model/{Mesh,MeshOps,Primitives}.lean of modeling/mesh.go, modeling/meshops/*.go, "
